@@ -165,11 +165,17 @@ CLAIMS.update({
                 text="Backoff.tla specifies the delay sequence (initial, min(max, 2*previous), exactly retry-limit many or unbounded) with exact nanosecond arithmetic over the duration points 0, 1 ns, 500 ms, 30 s, MAX/2, MAX/2+1ns, MAX-1ns, MAX and retry limits none, 0..3, 10, 70, u32::MAX; TLC checks the specified sequence against the predicate and emits each policy; the real ExponentialBackoff produces up to 70 delays per policy, judged by the same predicate in TLC."),
 })
 
+
+CLAIMS["C14"] = dict(engine="renew", level="model_checking",
+    note="Trusted: TLC/SANY, the python driver, FIFO wires held by the harness, hooks verif_chunk (server reader task), VerifSecureChannelState::verif_begin/end_issue_or_renew (client caller task). Crypto is real (Basic256Sha256 SignAndEncrypt); tokens are abstract numbers in the model. The two KNOWN findings (single key slot per side) are reported as KNOWN-FINDING lines, only in cases that the pinned-tree model explains step by step.",
+    text="Renew.tla has one process per real task (client caller, client transport, server reader, server writer securing at write time) over FIFO wires; TLC shows that the corrected design (previous/next key slots, new token used for sending once seen) satisfies the C14 monitor for all interleavings within the bounds and that the pinned tree's single key slot violates it; every interleaving of the pinned-tree model up to the depth bound plus simulation with two renewals is replayed on a real server TcpTransport + MessageWriter and a real client SecureChannel + SecureChannelState; accept/reject of every delivery is judged by the monitor in TLC and compared with the model (zero drift required for a violation to count as the known finding).")
+
 NOT_APPLICABLE = {
     "C41": "identity of a third-party YAML serializer over configuration records: no state, transition or case analysis for a TLA+ specification to own, and TLC cannot enumerate the string space that matters (DESIGN.md section 5)",
     "C42": "encode/decode fidelity of serde implementations with identity as the only oracle: outside what a TLA+ model decides (DESIGN.md section 5)",
 }
 ENGINES = [
+    {"name": "renew", "path": "/verif/harness/src/e_renew.rs", "serves_properties": ["C14"], "kind_free_text": "replays Renew.tla task interleavings on real client/server secure channels with harness-held FIFO wires; judged by TraceRenew.tla"},
     {"name": "handshake", "path": "/verif/harness/src/e_handshake.rs", "serves_properties": ["C10", "C15"], "kind_free_text": "feeds frame sequences of Handshake.tla to a real TcpTransport; judged by TraceHandshake.tla"},
     {"name": "h_client", "path": "/verif/h_client", "serves_properties": ["C35", "C36", "C37"], "kind_free_text": "replays ClientTransport.tla / ClientAcks.tla behaviours on the real client TransportState and Session::publish; runs Backoff.tla policies on the real ExponentialBackoff"},
     {"name": "aspace", "path": "/verif/harness/src/e_aspace.rs", "serves_properties": ["C28", "C29", "C31"], "kind_free_text": "replays AddressSpace.tla behaviours on a real small AddressSpace; judged by TraceAspace.tla"},
